@@ -61,3 +61,11 @@ claim('C11', 'proof',
       'Trusted: engine; axioms for set()/sorted() on integer sequences; A-INDUCTION for sub-spaces. next_dna / space_size are not under contract '
       '(nested closures with mutable sets): bounded only.',
       'contract-based deductive verification (pyvc) + bounded stand-in (brute-force enumeration) for the odometers', 'DESIGN.md 5/C11')
+claim('C06', 'proof',
+      'One-level induction steps of the laws on the real `eq`/`ne`/`lt`/`gt` bodies for sequences of any length: eq on lists/tuples means same length and '
+      'pairwise-equal children; symmetric, transitive; ne is its negation; lt on lists satisfies trichotomy (exactly one of lt/eq/gt), gt is lt swapped, '
+      'transitivity and congruence with eq -- each discharged by running the real bodies two or three times on symbolic sequences whose children obey '
+      'the laws (induction hypothesis). `_type_order` ranks the type classes as documented and `lt` across classes follows it.',
+      'Trusted: engine; A-INDUCTION (children relations are uninterpreted and assumed lawful one level down). Dict branches, hashing, user sym_eq/sym_lt '
+      'overrides and sorting are covered by the bounded tier (all pairs/triples of a value pool).',
+      'contract-based deductive verification (pyvc relational obligations) + bounded stand-in', 'DESIGN.md 5/C06')
